@@ -63,7 +63,8 @@ def norm_model_obs(prog: Dict[str, Any], obs: Any) -> Any:
         o["logreq"] = o.get("logreq", 0)
         o["log"] = [l for l in o.get("log", []) if l[1]]
         o["req"] = [q for q in o.get("req", []) if q[1] not in hidden and q[0] != "log"]
-        o["calls"] = [[f, canon_model_value(a), canon_model_value(k)] for f, a, k in o.get("calls", [])]
+        # (`lib:` functions stand for bodies the library generates itself — an interface member's pass-through — not user code)
+        o["calls"] = [[f, canon_model_value(a), canon_model_value(k)] for f, a, k in o.get("calls", []) if not f.startswith("lib:")]
         if getonly:
             # a get/set-only backend is a plain store for the model; its inherited `exists` is a `get` on the backend
             o["cache"] = [c for c in o.get("cache", []) if c[0] not in getonly]
